@@ -32,6 +32,7 @@ import Verif.Model.Common
     authority/tls.go  Sign (lifetime), renewContext (duration, lifetime)
     cas/softcas/softcas.go  CreateCertificate / RenewCertificate date arithmetic (+ DER second precision)
     authority/ssh.go  renewSSH / rekeySSH date arithmetic
+    controller.go DefaultAuthorizeSSHRenew / sshpop.go authorizeToken validity gate (`renewGate`)
     acme/api/order.go NewOrder date defaulting; acme/order.go Finalize pass-through
 -/
 namespace Verif.Validity
@@ -325,6 +326,12 @@ def acmeOrderDates (clockNow dfltTLS reqNb reqNa : Int) : Cert :=
   let nb := if reqNb = 0 then nb + (-acmeBackdate) else nb
   ⟨nb, na⟩
 
+/-- NewOrder stores the order as JSON (`db.CreateOrder`): `time.Time` marshals years 0000–9999 only,
+    otherwise the request is answered 500 and no order exists. -/
+def acmeNewOrder (clockNow dfltTLS reqNb reqNa : Int) : Out Cert :=
+  let o := acmeOrderDates clockNow dfltTLS reqNb reqNa
+  if encodable o.nb ∧ encodable o.na then .ok o else .rej .encode
+
 /-- Finalize: `SignOptions{NotBefore: NewTimeDuration(o.NotBefore), NotAfter: NewTimeDuration(o.NotAfter)}` -/
 def acmeSignOpts (o : Cert) (backdate : Int) : SignOpts :=
   { nb := { t := o.nb }, na := { t := o.na }, backdate := backdate }
@@ -509,6 +516,25 @@ def sshRekey (cl : Claimer) (anow pnow backdate : Int) (old : SshCert) : Out Ssh
   sshValidityValid cl pnow backdate c
   sshDefaultValid pnow c
   pure c
+
+/-! ## Renewal gates (controller.go DefaultAuthorizeSSHRenew, sshpop.go SSHPOP.authorizeToken) -/
+
+/-- `ssh.CertTimeInfinity` -/
+def certTimeInfinity : U64 := 18446744073709551615#64
+
+/-- `DefaultAuthorizeSSHRenew` with renewal not disabled: `cast.SafeInt64(ValidAfter)` must succeed and
+    not lie in the future; `ValidBefore` is looked at only when it is not "forever" and renewal after
+    expiry is not allowed.  (`SSHPOP.authorizeToken(…, checkValidity = true)`, used by rekey and
+    revoke, is the same test with `allowExpired = false`.) -/
+def renewGate (unixNow : Int) (allowExpired : Bool) (c : SshCert) : Bool :=
+  if c.va.toNat ≥ 9223372036854775808 ∨ unixNow < (c.va.toNat : Int) then false
+  else if c.vb ≠ certTimeInfinity ∧ allowExpired = false then
+    (if c.vb.toNat ≥ 9223372036854775808 ∨ unixNow ≥ (c.vb.toNat : Int) then false else true)
+  else true
+
+/-- `/ssh/renew` after authorization: gate, then `renewSSH`'s date arithmetic (`none` = 401) -/
+def sshRenewAuthorized (unixNow anow backdate : Int) (allowExpired : Bool) (old : SshCert) : Option (Out SshCert) :=
+  if renewGate unixNow allowExpired old then some (sshRenewDates anow backdate old) else none
 
 /-! ## Historic (pre-fix) variants, kept for the refutation witnesses D6 / D7 -/
 
